@@ -634,7 +634,18 @@ class VerifyTask:
         kwargs = {k: v for k, v in vals.items() if not k.startswith("g_") and k != "old"}
         # positional binding by parameter name
         try:
-            result = ip.run_function(st, f, args, kwargs)
+            if getattr(c, "through_decorators", False) and self_obj is not None:
+                # opt-in `through_decorators = True`: the method is verified AS CALLERS REACH IT -- its decorators
+                # (e.g. monitored_list._call_modified, which calls the `modified` callback after the body) are applied
+                # exactly as Interp.decorate_method applies them at a call site `self.method(...)`, then the decorated,
+                # bound function is called with the contract's arguments in the order of `params`.  The undecorated body
+                # (which the wrapper calls as `fn`) must be listed in `inline=` under its own key.  CPython cross-check:
+                # the same wrapper is exercised through super() calls by the MonitoredFocusList tasks (replayed natively).
+                f.top_level = False
+                bound = ip.decorate_method(st, f, self_obj)
+                result = ip.call(st, bound, [kwargs[k] for k in c.params], {})
+            else:
+                result = ip.run_function(st, f, args, kwargs)
         except PyRaise as pr:
             exc = pr.exc
             allowed = any(issubclass(exc.cls, r) for r in c.raises)
